@@ -1101,6 +1101,7 @@ func cmpEdgesV(f *ssa.Function, wantX, wantY func(ssa.Value) bool, eq bool) []ss
 }
 
 func Transfer(w *load.World, c *core.Collector) {
+	fileHashCoversFile(w, c)
 	props := []string{"C14"}
 	f := findFn(w, "(*cluster.ClusterNode).sendShardFile")
 	if f == nil {
@@ -3216,4 +3217,186 @@ func callerArg(w *load.World, v ssa.Value) ssa.Value {
 		return nil
 	}
 	return sites[0].Common().Args[idx]
+}
+
+// fileHashCoversFile: the checksum that decides whether a transferred shard file may be deleted
+// at the sender is the hash of the whole file: FileHash either hands the file to io.Copy, or, if
+// it reads blocks itself, every block read is written to the hasher before the function can
+// return successfully — the only reads that may be dropped are those that returned nothing
+// (n == 0, or io.EOF from ReadFull/ReadAtLeast, which means no byte was read).
+func fileHashCoversFile(w *load.World, c *core.Collector) {
+	props := []string{"C14"}
+	f := findFn(w, "cluster.FileHash")
+	if f == nil {
+		c.Add("TRANSFER", "anchor:FileHash", core.Undecided, "", "cluster.FileHash not found", props...)
+		return
+	}
+	isHasher := func(v ssa.Value) bool {
+		t := v.Type().String()
+		return strings.Contains(t, "xxhash") || strings.Contains(t, "hash.Hash") || strings.Contains(t, "io.Writer")
+	}
+	// the reading may live in a helper that is given the opened file
+	f = homeOf(f, func(g *ssa.Function) bool {
+		for _, b := range g.Blocks {
+			for _, in := range b.Instrs {
+				if call, ok := in.(*ssa.Call); ok {
+					if call.Call.IsInvoke() && call.Call.Method.Name() == "Read" {
+						return true
+					}
+					if h := call.Call.StaticCallee(); h != nil {
+						switch h.String() {
+						case "io.Copy", "io.CopyBuffer", "io.ReadFull", "io.ReadAtLeast", "(*os.File).Read", "(*bufio.Reader).Read":
+							return true
+						}
+					}
+				}
+			}
+		}
+		return false
+	})
+	var reads []*ssa.Call
+	var writes []ssa.Instruction
+	copies := 0
+	for _, b := range f.Blocks {
+		for _, in := range b.Instrs {
+			call, ok := in.(*ssa.Call)
+			if !ok {
+				continue
+			}
+			name := ""
+			if call.Call.IsInvoke() {
+				name = call.Call.Method.Name()
+				if (name == "Write" || name == "WriteString") && isHasher(call.Call.Value) {
+					writes = append(writes, call)
+				}
+				if name == "Read" {
+					reads = append(reads, call)
+				}
+				continue
+			}
+			g := call.Call.StaticCallee()
+			if g == nil {
+				continue
+			}
+			switch g.String() {
+			case "io.Copy", "io.CopyBuffer", "io.CopyN":
+				if g.String() != "io.CopyN" && len(call.Call.Args) > 0 && isHasher(call.Call.Args[0]) {
+					copies++
+				}
+			case "io.ReadFull", "io.ReadAtLeast", "(*os.File).Read", "(*bufio.Reader).Read", "(*os.File).ReadAt":
+				reads = append(reads, call)
+			}
+			if (g.Name() == "Write" || g.Name() == "WriteString") && len(call.Call.Args) > 0 && isHasher(call.Call.Args[0]) {
+				writes = append(writes, call)
+			}
+		}
+	}
+	switch {
+	case copies > 0 && len(reads) == 0:
+		c.Add("TRANSFER", "filehash-whole-file", core.OK, w.Position(f.Pos()), "io.Copy into the hasher", props...)
+		return
+	case len(reads) == 0:
+		c.Add("TRANSFER", "filehash-whole-file", core.Undecided, w.Position(f.Pos()), "FileHash neither copies the file into a hasher nor reads it in a way the rule knows", props...)
+		return
+	}
+	bad := ""
+	for _, rd := range reads {
+		full := false
+		if g := rd.Call.StaticCallee(); g != nil && (g.String() == "io.ReadFull" || g.String() == "io.ReadAtLeast") {
+			full = true
+		}
+		// edges on which this read returned no byte
+		var banned []ssax.Edge
+		for _, b := range f.Blocks {
+			ifi, ok := b.Instrs[len(b.Instrs)-1].(*ssa.If)
+			if !ok {
+				continue
+			}
+			bo, neg, ok := condBinOp(ifi.Cond, 0)
+			if !ok {
+				continue
+			}
+			fromRead := func(v ssa.Value, idx int) bool {
+				ex, ok := v.(*ssa.Extract)
+				return ok && ex.Tuple == ssa.Value(rd) && ex.Index == idx
+			}
+			isEOF := func(v ssa.Value) bool {
+				ld, ok := v.(*ssa.UnOp)
+				if !ok {
+					return false
+				}
+				g, ok := ld.X.(*ssa.Global)
+				return ok && g.Name() == "EOF" && g.Pkg.Pkg.Path() == "io"
+			}
+			// the successor on which the read is known to have returned nothing
+			s := -1
+			if z, isC := ssax.ConstInt(bo.Y); isC && fromRead(bo.X, 0) {
+				switch {
+				case bo.Op == token.EQL && z == 0, bo.Op == token.LEQ && z == 0, bo.Op == token.LSS && z == 1:
+					s = 0
+				case bo.Op == token.NEQ && z == 0, bo.Op == token.GTR && z == 0, bo.Op == token.GEQ && z == 1:
+					s = 1
+				}
+			}
+			if full && (bo.Op == token.EQL || bo.Op == token.NEQ) && ((fromRead(bo.X, 1) && isEOF(bo.Y)) || (fromRead(bo.Y, 1) && isEOF(bo.X))) {
+				s = 0
+				if bo.Op == token.NEQ {
+					s = 1
+				}
+			}
+			if s < 0 {
+				continue
+			}
+			if neg {
+				s = 1 - s
+			}
+			banned = append(banned, ssax.Edge{From: b, Succ: s})
+		}
+		// writes are barriers
+		wblocks := map[*ssa.BasicBlock]ssa.Instruction{}
+		for _, wr := range writes {
+			wblocks[wr.Block()] = wr
+		}
+		isBanned := func(b *ssa.BasicBlock, i int) bool {
+			for _, e := range banned {
+				if e.From == b && e.Succ == i {
+					return true
+				}
+			}
+			return false
+		}
+		for _, ex := range successExits(f) {
+			seen := map[*ssa.BasicBlock]bool{}
+			var dfs func(x *ssa.BasicBlock, first bool) bool
+			dfs = func(x *ssa.BasicBlock, first bool) bool {
+				if wr, isW := wblocks[x]; isW && !(first && ssax.Precedes(wr, rd)) {
+					return false
+				}
+				if x == ex.In.Block() && !first {
+					return true
+				}
+				if seen[x] {
+					return false
+				}
+				seen[x] = true
+				for i, s := range x.Succs {
+					if isBanned(x, i) {
+						continue
+					}
+					if dfs(s, false) {
+						return true
+					}
+				}
+				return false
+			}
+			if dfs(rd.Block(), true) {
+				bad = w.At(rd)
+			}
+		}
+	}
+	if bad != "" {
+		c.Add("TRANSFER", "filehash-whole-file", core.Violation, bad, "bytes read from the file here can be left out of the checksum (a successful return is reachable without writing them to the hasher, on a path where the read did return data): files that differ in those bytes compare equal and the sender deletes its copy", props...)
+	} else {
+		c.Add("TRANSFER", "filehash-whole-file", core.OK, w.Position(f.Pos()), "", props...)
+	}
 }
